@@ -33,8 +33,32 @@ def rule_marker_worker(ctx: Ctx, prog: Program) -> None:
         if pid is None:
             raise AnalysisError(f"{fn.fq}: no processor index parameter")
         it = Interp(prog, no_inline={"solve_one": None, "backtrack": None, "get_function_addresses": [], "reset": None})
-        res = [r for r in it.run(fn) if r.outcome == "return"]
+        all_res = it.run(fn)
+        res = [r for r in all_res if r.outcome == "return"]
         ctx.floor(f"R-MARKER:{name}:exit-paths", len(res), 1)
+        # a worker that ends with an exception (e.g. its choice-point stack is full) must NOT announce completion: the parent would count it
+        # as finished and return without its solutions instead of reporting the failure
+        # (the search itself is summarised as an opaque call, so its exceptions are not abstract paths: the clause is also checked on the shape)
+        for tnode in ast.walk(fn.node):
+            if not isinstance(tnode, ast.Try):
+                continue
+            for blk in [tnode.finalbody] + [h.body for h in tnode.handlers]:
+                for sub in blk:
+                    for cnode in ast.walk(sub):
+                        if isinstance(cnode, ast.Call) and isinstance(cnode.func, ast.Attribute) and cnode.func.attr in ("put", "put_nowait") and cnode.args \
+                                and isinstance(cnode.args[0], ast.Tuple) and len(cnode.args[0].elts) >= 2 and isinstance(cnode.args[0].elts[1], ast.Constant) \
+                                and cnode.args[0].elts[1].value is None:
+                            ctx.violation("R-MARKER", fn.path, name, "marker-on-error-path", f"{fn.path}:{cnode.lineno}",
+                                          f"{name} sends its completion marker from a finally / except clause: a worker whose search ended with an exception "
+                                          "(choice-point stack full, ...) is counted as finished and the caller returns partial results without any error")
+        for r in all_res:
+            if r.outcome != "raise":
+                continue
+            for e in _puts(r.state.trace):
+                if _is_none(e.args[0].items[1]):
+                    ctx.violation("R-MARKER", fn.path, name, "marker-on-error-path", f"{fn.path}:{e.line}",
+                                  f"{name} sends its completion marker on a path that ends with an exception (a finally / except clause): a worker whose "
+                                  "search failed (stack full, ...) is counted as finished and the caller returns partial results without any error")
         for r in res:
             puts = _puts(r.events)
             markers = [e for e in puts if _is_none(e.args[0].items[1])]
@@ -114,6 +138,18 @@ def rule_marker_parent(ctx: Ctx, prog: Program) -> None:
         nb = counters[0]
         lv = Aff.atom(("lv", nb, loop.loop_id))
         ctx.ok("R-MARKER", f"{name}: awaited markers start at len(self.solvers)")
+        # every way through the call distributes the work and collects the answers: a path that returns / ends without going through
+        # the receive loop (e.g. a 'single solver' shortcut run in the calling process) has none of the properties established here
+        for r in p.res:
+            if r.outcome not in ("return",):
+                continue
+            went = any(e.kind in ("loop", "iter") and e.loop is loop for e in r.state.trace)
+            if not went:
+                ctx.violation("R-MARKER", fn.path, name, "bypasses-receive-loop", f"{fn.path}:{_last_line(r)}",
+                              f"{name} has a path that ends without spawning the workers and collecting their messages (a shortcut run in the calling "
+                              "process): the sub-solver is then run in place, keeps its state from one call to the next and is not reset")
+            else:
+                ctx.ok("R-MARKER", f"{name}: the path goes through the receive loop", nontrivial=False)
         done_lists = _completion_lists(prog, fn, loop)
         # the flags that excuse finished workers must belong to THIS call: created (all false) before the receive loop of the same call.
         # Flags kept on the object survive from one call to the next: after one complete call every worker is 'finished' for ever and a
@@ -213,6 +249,13 @@ def rule_marker_parent(ctx: Ctx, prog: Program) -> None:
                         f"{name}: Process(target={tgt!r}, args={args!r}) does not start solver i with its own index i and the shared result queue")
 
 
+def _last_line(r: PathResult) -> int:
+    for e in reversed(r.state.trace):
+        if getattr(e, "line", 0):
+            return e.line
+    return 0
+
+
 LIVE_ATTRS = ("is_alive", "exitcode", "sentinel")
 
 
@@ -269,13 +312,16 @@ def rule_keepbest(ctx: Ctx, prog: Program) -> None:
         fn = prog.func(mod, f"MultiprocessingSolver.{entry}")
         ctx.fn(fn.fq)
         it = Interp(prog, no_inline={"optimize": []})
-        okk = False
-        for r in it.run(fn):
+        rets = [r for r in it.run(fn) if r.outcome == "return"]
+        okk = bool(rets)
+        for r in rets:
+            path_ok = False
             for e in calls_named(r.events, "optimize"):
                 a = list(e.args)[1:]
                 if len(a) == 3 and as_view(a[0]) == View("variable_idx", ()) and it.scalar(r.state, a[1]) == Aff.atom(("str", worker)) \
                         and isinstance(a[2], ModVal) and a[2].name in (f"operator.{op}", f"_operator.{op}") and as_view(r.value) == as_view(e.ret):
-                    okk = True
+                    path_ok = True
+            okk = okk and path_ok  # every return path, not just one of them
         _mv(ctx, fn, f"MultiprocessingSolver.{entry}", okk, f"optimize(variable_idx, '{worker}', operator.{op})", "pairing",
             f"{entry} must distribute '{worker}' and keep the best with operator.{op}", rule="R-KEEPBEST")
         # the worker method exists and delegates with the matching tightening (checked by R-TIGHTEN)
